@@ -50,6 +50,11 @@ func genW1(prop, tier string, r *simrt.Rng) *w1Case {
 			*c = *inner
 			c.unplugs = []int{-1}
 		}
+		// the messages of the disconnect clean-up are messages too: unplug in the middle of the history as well
+		// (keys down, key-emulating axes deflected)
+		if n := len(c.script); n > 0 && !c.burst && r.Chance(0.5) {
+			c.unplugs = append(c.unplugs, r.Intn(n))
+		}
 	case "C06":
 		genC06(c, r, thorough)
 	case "C07":
